@@ -56,7 +56,7 @@ CHECKS = {
  "C16": dict(cat="model_checking", tech="explicit-state BFS over Kubernetes-shaped transaction histories through the real etcd RPC server against an etcd reference model, plus exhaustive enumeration of a transaction grammar (~21 000 shapes x 3 store states)",
    text="Every history up to the stated depth of the four Kubernetes shapes on 3 prefix-related keys is executed through RPCServer.Txn/Range/Watch and compared field by field with etcd semantics; every shape of the grammar must either be one of the four shapes on one key or be rejected with an error and leave the store byte-identical.",
    ref="4/C16"),
- "C17": dict(cat="model_checking; plus preemption-bounded schedule exploration of expiry against a writer of the Event", tech="exhaustive enumeration of histories mixing Event / non-Event / look-alike keys, compactions and virtual-clock advances around the TTL, on engines with and without native TTL; versioned-map model with an 'may be wholly gone after TTL' rule",
+ "C17": dict(cat="model_checking", tech="exhaustive enumeration of histories mixing Event / non-Event / look-alike keys, compactions and virtual-clock advances around the TTL, on engines with and without native TTL; versioned-map model with an 'may be wholly gone after TTL' rule; plus preemption-bounded schedule exploration of expiry against a writer of the Event",
    text="Every history up to the stated depth over 16 operations; after every step every key is compared with the model: non-Event keys never change, an Event may read absent only when its newest change is at least TTL old, and then wholly. Schedules: the compaction that expires an old Event against a client updating it or deleting and re-creating it; afterwards point read, range read, stored records and a guarded write agree.",
    ref="4/C17"),
  "C18": dict(cat="model_checking", tech="exhaustive execution of the request x role x proxy x leader-reachability matrix through the real servers and the real revision syncer (recording backend), plus preemption-bounded schedule exploration of the real syncer / single-flight group",
